@@ -14,6 +14,8 @@ structure PodView where
   terminating : Bool
   ns : String
   eds : String
+  /-- the pod carries the canary label -/
+  canaryLabel : Bool := false
   deriving DecidableEq, Repr
 
 def ownPods (d : EDS) (pods : List PodView) : List PodView :=
